@@ -102,7 +102,7 @@ def impl(case):
 
 
 def gen_case(rng, quick):
-    n = rng.randint(1, 6) if rng.random() < 0.8 else rng.choice([7, 8, 9, 15, 16, 17, 31, 32, 33])
+    n = rng.randint(1, 6) if rng.random() < 0.8 else rng.choice([7, 8, 9, 15, 16, 17, 31, 32, 33, 63, 64, 65])
     init = G.uniform(rng, n)
     edits = []
     for _ in range(rng.randint(1, 10 if quick else 30)):
